@@ -431,6 +431,36 @@ func suiteWalk(c *Ctx) error {
 		if hasErrors != anyErr {
 			c.Violate("C16", "C16/has-errors-flag", fmt.Sprintf("hasErrors=%v but files with an error message: %v", hasErrors, anyErr), rp)
 		}
+		// slot / strict model (Model/Walk.lean processAll, checkFails) against the real run
+		{
+			var outs, kinds []string
+			for _, f := range files {
+				o := byFile[f]
+				k := "f"
+				kind := "n"
+				if len(o) == 1 && o[0].ErrorMessage != "" {
+					k, kind = "e", "ne"
+				}
+				outs = append(outs, k)
+				kinds = append(kinds, kind)
+			}
+			old := os.Stdout
+			sink, _ := os.Create(filepath.Join(c.Work, "strict0.out"))
+			os.Stdout = sink
+			errStrict := cli.RunCheckLogic(fsys, root, true, false, "")
+			os.Stdout = old
+			sink.Close()
+			mo, err := RunModel(c.Model, "walk", []string{"slots\t1\t" + strings.Join(outs, ",")})
+			if err != nil {
+				return err
+			}
+			want := b01(errStrict != nil) + ";" + b01(hasErrors) + ";" + strings.Join(kinds, ",")
+			if len(mo) != 1 || mo[0] != want {
+				rp["model_output"], rp["real"] = mo, want
+				c.ViolateNoInput("C16", "C16/model-correspondence:slots", "slot/strict model differs from ProcessFilesParallel/RunCheckLogic", rp)
+			}
+			c.Res.Evaluations++
+		}
 		// strict mode through RunCheckLogic (stdout is the JSON report: send it to a file)
 		for _, target := range []string{root, filepath.Join(root, "lib")} {
 			old := os.Stdout
